@@ -7,6 +7,7 @@ from props import c01, c02, c03, c04, c10
 
 PROP = 'C17'
 BIN = 'c17'
+DENSE = {'quick': {8: 0, 16: 0, 32: 0, 64: 0}, 'thorough': {8: 0, 16: 0, 32: 0, 64: 0}}   # no dense pass: this driver takes ~2 s per type to build
 TASK_REQS = 1500
 RULE = ('every trait form (4 value/reference combinations, op-assign with value and reference, UFCS) of Add Sub Mul Div Rem BitAnd BitOr '
         'BitXor Neg Not, Shl/Shr with the 12 primitive amount types and 4 bnum amount types, Sum/Product over owned and borrowed '
